@@ -76,6 +76,86 @@ fn gen_tree(rng: &mut Rng, size: usize, mode: LenMode) -> Rose {
     t
 }
 
+/// the C10 oracle for one live start node: `answers` maps each listing query to the real answer ("ok id id ..." or an error)
+fn verify_listings(slots: &[RawSlot], x: usize, answers: &std::collections::HashMap<&str, String>, fail: &mut dyn FnMut(&str, &str, &str, &str)) {
+        let mut want = vec![];
+        subtree_pre(slots, x, &mut want);
+        let depth = |i: usize| slots[i].depth;
+        let mut sorted_want = want.clone();
+        sorted_want.sort();
+        for q in ["preorder", "postorder", "levelorder"] {
+            let Some(got) = parse_ids(&answers[q]) else {
+                fail("traversal", &format!("{q}:error"), q, &answers[q]);
+                continue;
+            };
+            let mut s = got.clone();
+            s.sort();
+            if s != sorted_want {
+                fail("traversal", &format!("{q}:not-a-permutation-of-the-subtree"), q, &answers[q]);
+                continue;
+            }
+            let pos: std::collections::HashMap<usize, usize> = got.iter().enumerate().map(|(i, v)| (*v, i)).collect();
+            for &v in got.iter() {
+                let kids = &slots[v].children;
+                for w in kids.windows(2) {
+                    if pos[&w[0]] > pos[&w[1]] {
+                        fail("traversal", &format!("{q}:sibling-order"), q, &answers[q]);
+                    }
+                }
+                for c in kids {
+                    let ok = match q {
+                        "preorder" | "levelorder" => pos[&v] < pos[c],
+                        _ => pos[&v] > pos[c],
+                    };
+                    if !ok {
+                        fail("traversal", &format!("{q}:parent-child-order"), q, &answers[q]);
+                    }
+                }
+            }
+            if q == "levelorder" && got.windows(2).any(|w| depth(w[0]) > depth(w[1])) {
+                fail("traversal", "levelorder:depth-decreases", q, &answers[q]);
+            }
+            if q == "preorder" && got != want {
+                fail("traversal", "preorder:differs-from-definition", q, &answers[q]);
+            }
+        }
+        // in-order
+        let binary = want.iter().all(|&v| slots[v].children.len() <= 2);
+        match (binary, parse_ids(&answers["inorder"])) {
+            (false, Some(_)) => fail("traversal", "inorder:accepts-more-than-two-children", "inorder", &answers["inorder"]),
+            (false, None) => {}
+            (true, None) => fail("traversal", "inorder:refuses-binary", "inorder", &answers["inorder"]),
+            (true, Some(got)) => {
+                fn ino(slots: &[RawSlot], v: usize, out: &mut Vec<usize>) {
+                    let k = &slots[v].children;
+                    if !k.is_empty() {
+                        ino(slots, k[0], out);
+                    }
+                    out.push(v);
+                    if k.len() > 1 {
+                        ino(slots, k[1], out);
+                    }
+                }
+                let mut w = vec![];
+                ino(slots, x, &mut w);
+                if w != got {
+                    fail("traversal", "inorder:differs-from-definition", "inorder", &answers["inorder"]);
+                }
+            }
+        }
+        // listings agree with the traversals
+        if parse_ids(&answers["subtree"]).as_ref() != Some(&want) {
+            fail("listing", "subtree-vs-preorder", "subtree", &answers["subtree"]);
+        }
+        if parse_ids(&answers["descendants"]).as_deref() != Some(&want[1..]) {
+            fail("listing", "descendants-vs-preorder-tail", "descendants", &answers["descendants"]);
+        }
+        let leaves: Vec<usize> = want.iter().cloned().filter(|&v| slots[v].children.is_empty()).collect();
+        if parse_ids(&answers["subtree_leaves"]).as_ref() != Some(&leaves) {
+            fail("listing", "subtree-leaves", "subtree_leaves", &answers["subtree_leaves"]);
+        }
+    }
+
 // ------------------------------------------------------------------------------------------------
 fn c10_tree(start: &str, rep: &mut Report, batch: &mut Batch, rng: &mut Rng) {
     let mut st = RealState::new();
@@ -112,82 +192,7 @@ fn c10_tree(start: &str, rep: &mut Report, batch: &mut Batch, rng: &mut Rng) {
             }
             continue;
         }
-        let mut want = vec![];
-        subtree_pre(&slots, x, &mut want);
-        let depth = |i: usize| slots[i].depth;
-        let mut sorted_want = want.clone();
-        sorted_want.sort();
-        for q in ["preorder", "postorder", "levelorder"] {
-            let Some(got) = parse_ids(&answers[q]) else {
-                fail(rep, "traversal", &format!("{q}:error"), x, q, &answers[q]);
-                continue;
-            };
-            let mut s = got.clone();
-            s.sort();
-            if s != sorted_want {
-                fail(rep, "traversal", &format!("{q}:not-a-permutation-of-the-subtree"), x, q, &answers[q]);
-                continue;
-            }
-            let pos: std::collections::HashMap<usize, usize> = got.iter().enumerate().map(|(i, v)| (*v, i)).collect();
-            for &v in got.iter() {
-                let kids = &slots[v].children;
-                for w in kids.windows(2) {
-                    if pos[&w[0]] > pos[&w[1]] {
-                        fail(rep, "traversal", &format!("{q}:sibling-order"), x, q, &answers[q]);
-                    }
-                }
-                for c in kids {
-                    let ok = match q {
-                        "preorder" | "levelorder" => pos[&v] < pos[c],
-                        _ => pos[&v] > pos[c],
-                    };
-                    if !ok {
-                        fail(rep, "traversal", &format!("{q}:parent-child-order"), x, q, &answers[q]);
-                    }
-                }
-            }
-            if q == "levelorder" && got.windows(2).any(|w| depth(w[0]) > depth(w[1])) {
-                fail(rep, "traversal", "levelorder:depth-decreases", x, q, &answers[q]);
-            }
-            if q == "preorder" && got != want {
-                fail(rep, "traversal", "preorder:differs-from-definition", x, q, &answers[q]);
-            }
-        }
-        // in-order
-        let binary = want.iter().all(|&v| slots[v].children.len() <= 2);
-        match (binary, parse_ids(&answers["inorder"])) {
-            (false, Some(_)) => fail(rep, "traversal", "inorder:accepts-more-than-two-children", x, "inorder", &answers["inorder"]),
-            (false, None) => {}
-            (true, None) => fail(rep, "traversal", "inorder:refuses-binary", x, "inorder", &answers["inorder"]),
-            (true, Some(got)) => {
-                fn ino(slots: &[RawSlot], v: usize, out: &mut Vec<usize>) {
-                    let k = &slots[v].children;
-                    if !k.is_empty() {
-                        ino(slots, k[0], out);
-                    }
-                    out.push(v);
-                    if k.len() > 1 {
-                        ino(slots, k[1], out);
-                    }
-                }
-                let mut w = vec![];
-                ino(&slots, x, &mut w);
-                if w != got {
-                    fail(rep, "traversal", "inorder:differs-from-definition", x, "inorder", &answers["inorder"]);
-                }
-            }
-        }
-        // listings agree with the traversals
-        if parse_ids(&answers["subtree"]).as_ref() != Some(&want) {
-            fail(rep, "listing", "subtree-vs-preorder", x, "subtree", &answers["subtree"]);
-        }
-        if parse_ids(&answers["descendants"]).as_deref() != Some(&want[1..]) {
-            fail(rep, "listing", "descendants-vs-preorder-tail", x, "descendants", &answers["descendants"]);
-        }
-        let leaves: Vec<usize> = want.iter().cloned().filter(|&v| slots[v].children.is_empty()).collect();
-        if parse_ids(&answers["subtree_leaves"]).as_ref() != Some(&leaves) {
-            fail(rep, "listing", "subtree-leaves", x, "subtree_leaves", &answers["subtree_leaves"]);
-        }
+        verify_listings(&slots, x, &answers, &mut |name: &str, sig: &str, q: &str, obs: &str| fail(rep, name, sig, x, q, obs));
     }
     // whole-tree leaf listing = the same set as the root's subtree leaves; removed slots never listed
     let a = case.step(&mut st, "ar.q\tleaves", Cmp::OkExact);
@@ -288,6 +293,122 @@ fn c09_tree(start: &str, rep: &mut Report, batch: &mut Batch, max_pairs: usize, 
         }
     }
     batch.push(case);
+}
+
+/// Runs `f` on a thread with a 1 GiB stack (the crate's recursive traversals need stack in proportion to the depth of the tree;
+/// a tree of any depth is a legal input, and with enough stack the answer must be the ordinary one).
+fn on_big_stack<T: Send + 'static>(f: impl FnOnce() -> T + Send + 'static) -> Option<T> {
+    std::thread::Builder::new().stack_size(1 << 30).spawn(f).ok()?.join().ok()
+}
+
+/// internal node `levels` levels below the root of a `real.ladder` tree
+fn ladder_internal(slots: &[RawSlot], levels: usize) -> usize {
+    let mut x = 0;
+    for _ in 0..levels {
+        match slots[x].children.iter().find(|c| !slots[**c].children.is_empty()) {
+            Some(c) => x = *c,
+            None => break,
+        }
+    }
+    x
+}
+
+/// C10 on a tree that is deeper than any fixed bound a traversal might carry: every listing from the root, from an internal
+/// node a quarter of the way down and from a leaf, judged by the same oracle as the small trees (real code only)
+fn deep_traversals(depth: usize, rep: &mut Report) {
+    let start = format!("real.ladder\t{depth}");
+    rep.case(&start, true);
+    rep.count("deep_trees");
+    let st_cmd = start.clone();
+    let fails = on_big_stack(move || {
+        let mut out: Vec<(String, String, String, String)> = vec![];
+        let mut st = RealState::new();
+        if st.exec(&st_cmd).0 != "ok" {
+            out.push(("traversal".into(), "deep:build-failed".into(), String::new(), String::new()));
+            return out;
+        }
+        let slots = slots_of(&st.tree);
+        let leaf = slots.len() - 1;
+        for x in [0, ladder_internal(&slots, depth / 4), leaf] {
+            let mut answers = std::collections::HashMap::new();
+            for q in ["preorder", "postorder", "levelorder", "inorder", "subtree", "descendants", "subtree_leaves"] {
+                answers.insert(q, st.exec(&format!("ar.q\t{q}\t{x}")).0);
+            }
+            verify_listings(&slots, x, &answers, &mut |name: &str, sig: &str, q: &str, obs: &str| {
+                out.push((name.to_string(), format!("deep:{sig}"), format!("ar.q\t{q}\t{x}"), obs.chars().take(200).collect()))
+            });
+        }
+        out
+    });
+    rep.count_n("queries", 21);
+    match fails {
+        None => rep.oracle("traversal", "deep:worker-died", &start, "the thread running the deep traversals panicked"),
+        Some(v) => {
+            for (name, sig, q, obs) in v {
+                rep.oracle(&name, &sig, &format!("{start}\n{q}"), &obs);
+            }
+        }
+    }
+}
+
+/// C09 on a very deep tree: root paths, common ancestors and distances between the root, shallow, middle and deepest nodes
+/// (real code only; the brute force walks the parent pointers of the raw arena)
+fn deep_paths(depth: usize, rep: &mut Report) {
+    let start = format!("real.ladder\t{depth}");
+    rep.case(&start, true);
+    rep.count("deep_trees");
+    let st_cmd = start.clone();
+    let fails = on_big_stack(move || {
+        let mut out: Vec<(String, String, String, String)> = vec![];
+        let mut st = RealState::new();
+        if st.exec(&st_cmd).0 != "ok" {
+            out.push(("root-path".into(), "deep:build-failed".into(), String::new(), String::new()));
+            return out;
+        }
+        let slots = slots_of(&st.tree);
+        let n = slots.len();
+        let by_name = |s: &str| slots.iter().position(|x| x.name.as_deref() == Some(s)).unwrap_or(0);
+        let picks = [0, by_name("L0"), by_name(&format!("L{}", depth / 2)), ladder_internal(&slots, depth / 2), ladder_internal(&slots, depth), n - 2, n - 1, by_name(&format!("L{}", depth - 1))];
+        for &x in picks.iter() {
+            let a = st.exec(&format!("ar.q\tpath\t{x}")).0;
+            let mut anc = ancestors(&slots, x);
+            anc.reverse();
+            if parse_ids(&a).as_ref() != Some(&anc) {
+                out.push(("root-path".into(), "deep:differs".into(), format!("ar.q\tpath\t{x}"), format!("{} ids listed, {} expected", parse_ids(&a).map_or(0, |v| v.len()), anc.len())));
+            }
+        }
+        for &s in picks.iter() {
+            for &t in picks.iter() {
+                let la = st.exec(&format!("ar.q\tlca\t{s}\t{t}")).0;
+                let da = st.exec(&format!("ar.q\tdist\t{s}\t{t}")).0;
+                let as_ = ancestors(&slots, s);
+                let at = ancestors(&slots, t);
+                let set: std::collections::HashSet<usize> = at.iter().cloned().collect();
+                let i = as_.iter().position(|v| set.contains(v)).unwrap();
+                let deepest = as_[i];
+                let j = at.iter().position(|v| *v == deepest).unwrap();
+                let q = format!("ar.q\tlca\t{s}\t{t}\nar.q\tdist\t{s}\t{t}");
+                if la != format!("ok {deepest}") {
+                    out.push(("lca".into(), "deep:not-deepest-common-ancestor".into(), q.clone(), format!("{la} expected {deepest}")));
+                }
+                let edges = i + j;
+                let want = format!("ok {} {}", edges as i64 * 1024, edges);
+                if da != want {
+                    out.push(("distance".into(), "deep:differs".into(), q, format!("{da} expected {want}")));
+                }
+            }
+        }
+        out
+    });
+    rep.count_n("queries", 8 + 128);
+    match fails {
+        None => rep.oracle("distance", "deep:worker-died", &start, "the thread running the deep path queries panicked"),
+        Some(v) => {
+            for (name, sig, q, obs) in v {
+                rep.oracle(&name, &sig, &format!("{start}\n{q}"), &obs);
+            }
+        }
+    }
 }
 
 /// numeric corners of the branch lengths, on the real code only (the arena model carries exact integers): NaN, +inf, -inf,
@@ -684,4 +805,10 @@ pub fn run(prop: &str, thorough: bool, seed: u64, driver: &str, rep: &mut Report
         },
         rep,
     );
+    // trees deeper than any fixed bound a path or a traversal might carry
+    match prop {
+        "C09" => deep_paths(if thorough { 300_000 } else { 70_000 }, rep),
+        "C10" => deep_traversals(if thorough { 80_000 } else { 16_000 }, rep),
+        _ => {}
+    }
 }
